@@ -27,7 +27,7 @@ from pyvc.values import Clause, VBool, VInt, VRef, VTuple, Vocab, z_int
 PROP = "C19"
 RS = "xdsl/backend/register_stack.py"
 I = z3.IntSort()
-VOCAB = Vocab({"allow_infinite": "bool"})
+VOCAB = Vocab({"allow_infinite": "bool", "new_value_by_old_value": "dict:ref:ref:SSAValue", "available_registers": "ref:RegisterStack"})
 
 
 class Pool:
@@ -319,10 +319,131 @@ def _native_stack(tier, seed):
 NATIVE = [("allocated-functions", N19.explore), ("register-stack-model", _native_stack)]
 
 
+
+# =============================================================================== ValueAllocator
+RA = "xdsl/backend/register_allocator.py"
+VTYPE = z3.Function("type_of_value", I, I)
+ISREG = z3.Function("is_register_of_the_allocators_base_class", I, z3.BoolSort())
+ALLOCD = z3.Function("register_type_is_allocated", I, z3.BoolSort())
+SETB = z3.ArraySort(I, z3.BoolSort())
+
+
+class AllocatorSpec(Spec):
+    """
+    ValueAllocator.allocate_value / free_value (new_type_for_value and _replace_value_with_new_type inlined): the register stack is seen through
+    its contract as ghost logs POPPED / PUSHED.
+      allocate_value: a value already handled, not register-typed or ALREADY ALLOCATED (pre-assigned) is left alone - nothing popped, nothing
+                      replaced; otherwise exactly one register is popped and the replacement value has exactly that register type and is recorded;
+      free_value:     pushes exactly the register of an allocated register-typed value, nothing otherwise.
+    """
+
+    prop, file = PROP, RA
+    modifies = ["dict#dom", "dict#val"]
+    ghost_modifies = ["POPPED", "PUSHED", "n_pop", "n_push"]
+
+    def __init__(self, method):
+        self.method = method
+        self.qualname = f"ValueAllocator.{method}"
+        self.inline = {"self.new_type_for_value": Inline(RA, "ValueAllocator.new_type_for_value"),
+                       "self._replace_value_with_new_type": Inline(RA, "ValueAllocator._replace_value_with_new_type")}
+
+        def b_pop(ex, st, args, kw):
+            from pyvc.engine import Res
+
+            r = st.fresh_int("popped_register")
+            st.assume(z3.And(r != 0, ISREG(r), ALLOCD(r)))
+            st.ghost["POPPED"] = z3.Store(st.ghost["POPPED"], r, True)
+            st.ghost["n_pop"] = z3.simplify(st.ghost["n_pop"] + 1)
+            st.ghost["last_pop"] = r
+            return [Res("val", VRef(r, "RegisterType"), st)]
+
+        b_pop.ghost_modifies = ["POPPED", "n_pop", "last_pop"]
+
+        def b_push(ex, st, args, kw):
+            from pyvc.engine import Res
+
+            st.ghost["PUSHED"] = z3.Store(st.ghost["PUSHED"], args[0].z, True)
+            st.ghost["n_push"] = z3.simplify(st.ghost["n_push"] + 1)
+            return [Res("val", None, st)]
+
+        b_push.ghost_modifies = ["PUSHED", "n_push"]
+
+        def b_replace(ex, st, args, kw):
+            from pyvc.engine import Res
+
+            v = st.fresh_int("new_value")
+            st.assume(z3.And(v != 0, VTYPE(v) == args[1].z, v != args[0].z))
+            return [Res("val", VRef(v, "SSAValue"), st)]
+
+        self.calls = {"self.available_registers.pop": Builtin(b_pop, "RegisterStack.pop (contract proved above): an allocated register of the requested class"),
+                      "self.available_registers.push": Builtin(b_push, "RegisterStack.push"),
+                      "Rewriter.replace_value_with_new_type": Builtin(b_replace, "returns a NEW value of the requested type (C01)"),
+                      "type": Builtin(lambda ex, st, a, k: [__import__("pyvc.engine", fromlist=["Res"]).Res("val", VRef(z3.IntVal(5), "type"), st)], "")}
+
+    @property
+    def globals(self):
+        def getattr_(ex, st, base, attr):
+            if attr == "type" and base.cls == "SSAValue":
+                return VRef(VTYPE(base.z), "RegisterType")
+            if attr == "is_allocated":
+                return VBool(ALLOCD(base.z))
+            if attr == "register_base_class":
+                return VRef(z3.IntVal(6), "type")
+            return None
+
+        def isinst(ex, st, v, cls):
+            from pyvc.values import lift_bool
+
+            if isinstance(v, VRef) and v.cls == "RegisterType":
+                return lift_bool(ISREG(v.z))
+            return None
+
+        return {"__getattr__": getattr_, "__isinstance__": isinst, "Rewriter": __import__("pyvc.values", fromlist=["VGlobal"]).VGlobal("Rewriter")}
+
+    def setup(self, st, inst):
+        st.ghost["POPPED"] = z3.Const("POPPED0", SETB)
+        st.ghost["PUSHED"] = z3.Const("PUSHED0", SETB)
+        st.ghost["n_pop"] = z3.IntVal(0)
+        st.ghost["n_push"] = z3.IntVal(0)
+        st.ghost["last_pop"] = z3.IntVal(0)
+        return {"self": VRef(st.declare_input("self", z3.Int("self")), "ValueAllocator"), "val": VRef(st.declare_input("val", z3.Int("val")), "SSAValue")}
+
+    def pre(self, st, a):
+        me = a["self"].z
+        return [A("objects", z3.And(me != 0, a["val"].z != 0, st.sel("new_value_by_old_value", me) != 0, VTYPE(a["val"].z) != 0))]
+
+    def post(self, old, st, a, res):
+        me, v = a["self"].z, a["val"].z
+        m0 = old.sel("new_value_by_old_value", me)
+        t = VTYPE(v)
+        same_map = z3.And(st.dict_dom(m0) == old.dict_dom(m0), st.dict_vals(m0) == old.dict_vals(m0))
+        npop, npush = st.ghost["n_pop"], st.ghost["n_push"]
+        if self.method == "free_value":
+            frees = z3.And(ISREG(t), ALLOCD(t))
+            return [C("pushes-exactly-the-register-of-an-allocated-value", z3.Implies(frees, z3.And(npush == 1, st.ghost["PUSHED"] == z3.Store(old.ghost["PUSHED"], t, True)))),
+                    C("nothing-is-pushed-otherwise", z3.Implies(z3.Not(frees), z3.And(npush == 0, st.ghost["PUSHED"] == old.ghost["PUSHED"]))),
+                    C("never-pops", npop == 0), A("map-untouched", same_map)]
+        needs = z3.And(z3.Not(old.dict_has(m0, v)), ISREG(t), z3.Not(ALLOCD(t)))
+        r = z_int(res)
+        return [C("handled-not-a-register-or-pre-assigned-values-are-left-alone", z3.Implies(z3.Not(needs), z3.And(r == 0, npop == 0, same_map))),
+                C("otherwise-exactly-one-register-is-popped-and-given-to-the-replacement-value",
+                  z3.Implies(needs, z3.And(npop == 1, r != 0, VTYPE(r) == st.ghost["last_pop"], st.ghost["POPPED"][VTYPE(r)],
+                                           st.dict_has(m0, v), st.dict_val(m0, v) == r))),
+                C("never-pushes", npush == 0)]
+
+    def native_search(self, inst, seed):
+        r = N19.explore("quick", seed)
+        return r["failures"][0] if r["failures"] else None
+
+
 def make_specs(tier):
     specs = []
     for m in ("push", "pop", "reserve_register", "unreserve_register", "include_register", "exclude_register"):
         s = StackSpec(m)
+        s.instances = [{}]
+        specs.append(s)
+    for m in ("allocate_value", "free_value"):
+        s = AllocatorSpec(m)
         s.instances = [{}]
         specs.append(s)
     return specs
@@ -332,7 +453,8 @@ ASSUMPTIONS = [
     "one register pool at a time: the defaultdict lookups self.available_registers[pool_key] etc. are bound to the pool's list/set/dict objects (pools with "
     "different keys are independent objects)",
     "RegisterStack.reserve_register is called only for registers that are not available (its documented precondition)",
-    "ValueAllocator.allocate_value/allocate_values_same_reg/free_value, BlockNaiveAllocator.allocate_block, per-op allocate_registers and the x86 allocator are "
+    "ValueAllocator.allocate_value / free_value are under contract with the register stack seen through ghost logs of pop/push calls; "
+    "ValueAllocator.allocate_values_same_reg (iteration and unpacking of a Python set), BlockNaiveAllocator.allocate_block, per-op allocate_registers and the x86 allocator are "
     "NOT under discharged contracts: the interference / pre-assignment / result-preservation clauses are decided by the bounded stand-in only (riscv, integer registers)",
     "reserve_registers is a @contextmanager generator (outside the subset): bounded only",
 ]
